@@ -69,6 +69,7 @@ func c01Worker(env *fw.Env) {
 			c01Giants(env)
 		}
 		c01EmptyChild(env)
+		c01WideArgs(env)
 	}
 }
 
